@@ -42,10 +42,11 @@ def coarseFS (nsamp : Nat) : FS Path → List (Op Path) → List String
     let r := coarseFS nsamp fs' rest
     match o with
     | .append p _ =>
-        let s := "write " ++ pname p
+        let s := "flush " ++ pname p
         match rest with
         | .append q _ :: _ => if q = p then r else s :: r
         | _ => s :: r
+    | .wbuf p => ("write " ++ pname p) :: r
     | .mkdir p => ("mkdir " ++ pname p) :: r
     | .openW p => ("openw " ++ pname p) :: r
     | .openA p => ("opena " ++ pname p) :: r
